@@ -18,12 +18,13 @@ RULE = ('all 2x2 tables with every cell >= 1 and n <= N (N = 9 quick / 12 thorou
 TRUSTED = ['pandas boolean masks / dropna used by RiskDifference.fit (modelled by Model.RdBounds.of_rows)']
 
 
-def make_frame(rows, rng, index_kind, store=None):
-    df = pd.DataFrame({'e': [np.nan if r[0] is None else float(r[0]) for r in rows],
+def make_frame(rows, rng, index_kind, store=None, codes=None):
+    cz = codes or (0, 1)           # the two exposure levels may carry any codes (calendar periods 202001 / 202002, site ids, ...)
+    df = pd.DataFrame({'e': [np.nan if r[0] is None else float(cz[int(r[0])]) for r in rows],
                        'y': [np.nan if r[1] is None else float(r[1]) for r in rows]})
     # compact storage of the 0/1 codes where the column has no missing value (a cell count may exceed the type's range)
     for col, j in (('e', 0), ('y', 1)):
-        if store and store.get(col) and not any(r[j] is None for r in rows):
+        if store and store.get(col) and not any(r[j] is None for r in rows) and not (col == 'e' and codes):
             df[col] = df[col].astype(store[col])
     # a bystander column the analysis does not name, with missing values of its own (most real frames have some)
     df['cd4'] = [np.nan if (i * 7 + len(rows)) % 3 == 0 else 100.0 + i for i in range(len(rows))]
@@ -39,11 +40,11 @@ def make_frame(rows, rng, index_kind, store=None):
 SHOWN = [0]
 
 
-def run_impl(rows, reference, index_kind='range', rng=None, show=None, store=None):
+def run_impl(rows, reference, index_kind='range', rng=None, show=None, store=None, codes=None):
     from zepid import RiskDifference
-    df = make_frame(rows, rng, index_kind, store)
+    df = make_frame(rows, rng, index_kind, store, codes)
     snap = df.copy(deep=True)
-    rd = RiskDifference(reference=reference)
+    rd = RiskDifference(reference=(codes or (0, 1))[reference])
     try:
         rd.fit(df, exposure='e', outcome='y')
     except ValueError as e:
@@ -97,7 +98,7 @@ def gen_cases(ctx):
             rows += [(None, None)] * r.randint(0, 3)
         r.shuffle(rows)
         cases.append({'rows': rows, 'reference': r.choice([0, 0, 1]), 'index': r.choice(['range', 'shift', 'str', 'dup']),
-                      'kind': 'random', 'miss': miss,
+                      'kind': 'random', 'miss': miss, 'codes': r.choice([None, None, (202001, 202002), (7, 3), (1000000, 1000001)]),
                       'store': {'e': r.choice([None, 'int8', 'uint8', 'bool', 'int64']), 'y': r.choice([None, 'int8', 'uint8', 'bool', 'int64'])}})
     # tables whose cell counts exceed 127 / 255, stored in every integer width
     for k in range(6 if ctx.quick else 40):
@@ -113,7 +114,7 @@ def gen_cases(ctx):
 def check_cases(ctx, cases):
     impl = []
     for cs in cases:
-        impl.append(run_impl(cs['rows'], cs['reference'], cs['index'], show=cs.get('show'), store=cs.get('store')))
+        impl.append(run_impl(cs['rows'], cs['reference'], cs['index'], show=cs.get('show'), store=cs.get('store'), codes=cs.get('codes')))
         cs['show'] = impl[-1].get('show', 0)
     side = None
     if ctx.gen.get('rdbounds', {}).get('ok'):
